@@ -279,6 +279,19 @@ Fixpoint no_plt (c : call) : bool :=
       (match h with HP => false | _ => true end) && forallb no_plt kids && forallb no_plt tails
   end.
 
+(* ------------------------------------------------------------------ threads *)
+(* struct mcount_thread_data (mtd) is thread-local and every thread has its own stack: a multi-threaded
+   run is a schedule of (thread, operation) pairs over one shadow state per thread *)
+Definition tupd (ss : nat -> st) (t : nat) (s : st) : nat -> st := fun x => if Nat.eqb x t then s else ss x.
+Fixpoint run_sched (ss : nat -> st) (sched : list (nat * op)) : (nat -> st) * list (nat * out) :=
+  match sched with
+  | [] => (ss, [])
+  | (t, o) :: r => let '(s1, u) := run_op (ss t) o in
+                   let '(ss2, us) := run_sched (tupd ss t s1) r in (ss2, (t, u) :: us)
+  end.
+Definition proj {A} (t : nat) (l : list (nat * A)) : list A :=
+  map snd (filter (fun p => Nat.eqb (fst p) t) l).
+
 (* ------------------------------------------------------------------ checker used by the tie *)
 (* On observed outputs (from libmcount itself): every return went where the native program's
    return goes, and the slots below the top frame hold what they held before the call. *)
